@@ -33,6 +33,8 @@ CONSTANTS Mode,          \* "single" | "tsm"
           MaxParts,      \* bound on the number of particles (per tree)
           BlockSizes, GroupModes, StopLevels,
           Histories,     \* set of history names (see OpsOf)
+          AboveLevelsP1, \* numbers of extra levels of the periodic top tree (history "ptop") PLUS ONE: subset of 0..6
+                         \* (a TLC configuration file cannot spell a negative number; above = -1..5)
           EmitJson, Shard, NbShards
 
 ASSUME Mode \in {"single", "tsm"}
@@ -86,9 +88,9 @@ VARIABLES sparts, tparts,   \* pid -> leaf index (sequences); single mode: tpart
           cnt,              \* interaction counters as TbfInteractionCounter would report them
           elemDigest,       \* order-insensitive digest of the elementary interactions performed
           bad,              \* "" or the description of a failed library assertion / refinement failure
-          hname, step,
+          hname, step, above,
           init0             \* the initial particles and groups (history variable, printed for the replay)
-vars == <<sparts, tparts, bs, ogpp, stop, sgroups, tgroups, mp, lo, rhs, pending, pcs, ops, cnt, elemDigest, bad, hname, step, init0>>
+vars == <<sparts, tparts, bs, ogpp, stop, sgroups, tgroups, mp, lo, rhs, pending, pcs, ops, cnt, elemDigest, bad, hname, step, above, init0>>
 
 Tsm == Mode = "tsm"
 SOcc == SeqToSet(sparts)
@@ -286,6 +288,8 @@ OpsOf(h) ==
     [] h = "move1"    -> << Exec(AllFlags), [op |-> "move", k |-> 1], [op |-> "rebuild"], Exec(AllFlags) >>
     [] h = "move2"    -> << [op |-> "move", k |-> 1], [op |-> "move", k |-> 2], [op |-> "rebuild"], Exec(AllFlags),
                             [op |-> "move", k |-> 1], [op |-> "rebuild"], Exec(AllFlags) >>
+    \* the documented periodic sequence: upward pass, periodic top tree, transfer, downward pass
+    [] h = "ptop"     -> << Exec({"P2M", "M2M"}), [op |-> "top"], Exec({"M2L", "P2P"}), Exec({"L2L", "L2P"}) >>
 
 (***************************************************************************)
 (* Initial states: every occupancy pattern of the pool (1..MaxPerLeaf      *)
@@ -304,8 +308,9 @@ PartsOf(f) == LET RECURSIVE F(_)
 EmptyExp(groups) == [l \in Levels |-> [c \in CellsAt(groups, l) |-> EmptyBag]]
 ZeroCnt == [P2M |-> 0, M2M |-> 0, M2L |-> 0, L2L |-> 0, L2P |-> 0, P2P |-> 0, P2PInner |-> 0]
 
-Init == \E fs \in Patterns, ft \in Patterns, b \in BlockSizes, o \in GroupModes, st \in StopLevels, h \in Histories :
+Init == \E fs \in Patterns, ft \in Patterns, b \in BlockSizes, o \in GroupModes, st \in StopLevels, h \in Histories, n \in AboveLevelsP1 :
           /\ PatternNumber(fs) % NbShards = Shard
+          /\ (h = "ptop" \/ n = CHOOSE m \in AboveLevelsP1 : TRUE) /\ above = n - 1
           /\ (~Tsm => ft = fs)
           /\ sparts = PartsOf(fs) /\ tparts = PartsOf(ft)
           /\ bs = b /\ ogpp = o /\ stop = st /\ hname = h
@@ -322,6 +327,33 @@ Init == \E fs \in Patterns, ft \in Patterns, b \in BlockSizes, o \in GroupModes,
 (* deterministic displacement that empties / creates leaves.               *)
 NextPoolLeaf(m) == LET i == CHOOSE j \in 1..NP : PoolSeq[j] = m IN PoolSeq[(i % NP) + 1]
 
+(***************************************************************************)
+(* The periodic top tree (src/algorithms/periodic/                         *)
+(* tbfalgorithmperiodictoptree.hpp), transcribed at the grain of its three *)
+(* passes.  Its tree has height above+5; its level above+3 is the original *)
+(* box (fed by the level-1 multipoles of the real tree), each level above  *)
+(* is a cube of 2^Dim copies of the level below with the original box in   *)
+(* the LOW corner (child code 0 on the way down).  Transfer windows:       *)
+(* -3..3 when above = 0; otherwise -3..2 at the top level (3) and -2..3    *)
+(* below, offsets of Chebyshev norm > 1 only.                              *)
+(***************************************************************************)
+BoxLevelTop == above + 3
+WTop(L) == W(0) * Pow2(BoxLevelTop - L)
+TCTop(L, code) == [d \in Dims |-> (IF Bit(code, Dim - d) = 1 THEN 1 ELSE 0 - 1) * (WTop(L) \div 4)]
+VMp(L) == LET RECURSIVE F(_)
+              F(k) == IF k = BoxLevelTop THEN SumOver(SCells(1), LAMBDA c : ShiftBag(mp[1][c], TCTop(BoxLevelTop, ChildCode(c))))
+                      ELSE LET lower == F(k + 1) IN SumOver(0..(Pow2(Dim) - 1), LAMBDA code : ShiftBag(lower, TCTop(k, code)))
+          IN F(L)
+TopWindow(L) == IF above = 0 THEN (0-3)..3 ELSE IF L = 3 THEN (0-3)..2 ELSE (0-2)..3
+VM2L(L) == LET m == VMp(L) IN SumOver({ o \in [Dims -> TopWindow(L)] : Cheb(o) > 1 }, LAMBDA o : ShiftBag(m, Scale(o, WTop(L))))
+VLo(L) == LET RECURSIVE F(_)
+              F(k) == IF k = 3 THEN VM2L(3) ELSE VM2L(k) (+) ShiftBag(F(k - 1), Scale(TCTop(k - 1, 0), 0 - 1))
+          IN F(L)
+TopInto(c) == ShiftBag(VLo(BoxLevelTop), Scale(TCTop(BoxLevelTop, ChildCode(c)), 0 - 1))
+\* the repetition interval the library reports (getRepetitionsIntervals / getNbRepetitionsPerDim)
+IntervalLo == IF above = 0 - 1 THEN 0 - 1 ELSE IF above = 0 THEN 0 - 3 ELSE 0 - (3 * Pow2(above))
+IntervalHi == IF above = 0 - 1 THEN 1 ELSE IF above = 0 THEN 3 ELSE 3 * Pow2(above) - 1
+
 StartOp ==
   /\ pcs = <<>> /\ ops # <<>> /\ bad = ""
   /\ LET o == Head(ops) IN
@@ -336,13 +368,18 @@ StartOp ==
         /\ UNCHANGED <<pcs, pending, sgroups, tgroups, mp, lo, rhs>>
      \/ /\ o.op = "move" /\ o.k > Len(tparts)
         /\ UNCHANGED <<sparts, tparts, pcs, pending, sgroups, tgroups, mp, lo, rhs>>
+     \/ /\ o.op = "top"           \* TbfAlgorithmPeriodicTopTree::execute: images beyond the 3^Dim surrounding boxes
+        /\ lo' = IF above >= 0 THEN [lo EXCEPT ![1] = [c \in DOMAIN @ |-> @[c] (+) TopInto(c)]] ELSE lo
+        /\ UNCHANGED <<sparts, tparts, pcs, pending, sgroups, tgroups, mp, rhs>>
      \/ /\ o.op = "rebuild"       \* TbfTree::rebuild(): re-bin, keep results, reset expansions
         /\ sgroups' = BuildTree(SOcc, bs, ogpp) /\ tgroups' = BuildTree(TOcc, bs, ogpp)
         /\ mp' = EmptyExp(BuildTree(SOcc, bs, ogpp)) /\ lo' = EmptyExp(BuildTree(TOcc, bs, ogpp))
         /\ pending' = {} /\ pcs' = <<>>
         /\ UNCHANGED <<sparts, tparts, rhs>>
+  /\ bad' = IF Head(ops).op = "top" /\ (\E c \in SCells(1) : IntoMp(pending, 1, c) # {})
+            THEN "periodic top tree executed before the level-1 multipoles are complete" ELSE bad
   /\ ops' = Tail(ops) /\ step' = IF Head(ops).op = "rebuild" THEN 0 ELSE step
-  /\ UNCHANGED <<bs, ogpp, stop, cnt, elemDigest, bad, hname, init0>>
+  /\ UNCHANGED <<bs, ogpp, stop, cnt, elemDigest, hname, above, init0>>
 
 Call ==
   /\ pcs # <<>> /\ bad = ""
@@ -359,7 +396,7 @@ Call ==
         /\ elemDigest' = (elemDigest + DigestOfSet(B)) % 1000003
         /\ pending' = pending \ B
   /\ pcs' = Tail(pcs) /\ step' = step + 1
-  /\ UNCHANGED <<sparts, tparts, bs, ogpp, stop, sgroups, tgroups, ops, hname, init0>>
+  /\ UNCHANGED <<sparts, tparts, bs, ogpp, stop, sgroups, tgroups, ops, hname, above, init0>>
 
 Next == StartOp \/ Call
 Spec == Init /\ [][Next]_vars
@@ -432,6 +469,10 @@ ImageCube == [Dims -> (0-1)..1]
 ImagesOnceInner == (Done /\ FullHistory /\ Periodic /\ stop <= 1) =>
     \A p \in DOMAIN rhs : rhs[p] = BagOfSet({ <<x[1], VAdd(VSub(LeafCentre(sparts[x[1]]), LeafCentre(tparts[p])), Scale(x[2], BoxW))>> :
                                                  x \in { y \in (1..Len(sparts)) \X ImageCube : Tsm \/ ~(y[1] = p /\ y[2] = Zero) } })
+\* C10: with the top tree, one contribution from every image of the repetition cube the library reports (none from itself in the central box)
+ImagesExactlyOnce == (Done /\ hname = "ptop" /\ Periodic /\ stop <= 1) =>
+    \A p \in DOMAIN rhs : rhs[p] = BagOfSet({ <<x[1], VAdd(VSub(LeafCentre(sparts[x[1]]), LeafCentre(tparts[p])), Scale(x[2], BoxW))>> :
+                                                 x \in { y \in (1..Len(sparts)) \X [Dims -> IntervalLo..IntervalHi] : Tsm \/ ~(y[1] = p /\ y[2] = Zero) } })
 \* C18: the counters equal the cardinalities of the elementary sets
 CountersEqualElementary == (Done /\ FullHistory) =>
     LET E == Elementary(stop) IN
@@ -466,5 +507,6 @@ Emit == (EmitJson /\ Done) =>
                   sgroups |-> init0.sgroups, tgroups |-> init0.tgroups, fsgroups |-> sgroups, ftgroups |-> tgroups,
                   mpd |-> LevelDigest(mp), lod |-> LevelDigest(lo), rhsd |-> RhsDigest,
                   cnt |-> <<cnt.P2M, cnt.M2M, cnt.M2L, cnt.L2L, cnt.L2P, cnt.P2P, cnt.P2PInner>>,
-                  elem |-> elemDigest, nelem |-> Cardinality(Elementary(stop)), bad |-> bad ]))
+                  elem |-> elemDigest, nelem |-> Cardinality(Elementary(stop)), bad |-> bad,
+                  above |-> above, ilo |-> IntervalLo, ihi |-> IntervalHi ]))
 =============================================================================
